@@ -8,6 +8,29 @@
    `spec_record_of`; retrieve reproduces every record (`spec_record`) and offset_of its start;
    record numbers past the end are errors.
 
+   The three `.._answers_as_scan_partial` theorems are PARTIAL with respect to the property's
+   text, and exactly this is missing from them:
+   (a) suffix sorting: the model's `suffix_array` is a specification sorter (insertion sort of the
+       suffixes), not sais.rs; C19_suffix_array_unique shows any sorted permutation of the
+       suffixes is that array, and the check compares sais.rs's output with it on every text;
+   (b) the Huffman code book (encoder.rs HuffmanEncoder: code lengths, canonical codes, the
+       32-bit fallback) is not modelled; the wavelet trees inside WaveletTreePsi are used through
+       their list interface (wt_access / wt_rank_q / wt_select_q), which the prefix-tree theorems
+       below meet for every encoder that is a prefix-free injection on the row's symbols with
+       non-empty code words (a one-symbol row, where a Huffman book could have an empty code
+       word, is covered by the `wt|huff` correspondence cases only);
+   (c) bytes: no theorem mentions a byte.  The clause "serialising and re-parsing changes
+       nothing" of the property is CORRESPONDENCE ONLY: the models hold the values the parsers
+       return (a bit array is its bit list, a sparse node its slices, a SampledArray its presence
+       vector and value list, a document its parts), and the harness queries every structure only
+       after building it into bytes and parsing those bytes back (documents additionally parsed
+       again from a copy of the bytes at another offset, section D of a doc case), at every index; the
+       byte-at-a-time loops of BitArray::{load, push_word}, FixedWidthIterator, the varint node
+       headers of sparse.rs and the protobuf framing are not transcribed;
+   (d) inside the document functions the sigma columns, the sampled arrays' presence vectors and
+       y_key are plain lists read through bv_access / bv_rank / bv_select (proved equal to what
+       the sparse B-tree computes, but not re-instantiated; see .._structural_partial).
+
    What is proved for all inputs: the search logic (Sigma, backward search over psi, the
    WaveletTreePsi table with its streaming constructor and its lookup / lower_bound /
    upper_bound / constrain, locate through the sampled suffix array, extract through the sampled
@@ -43,21 +66,22 @@ Local Open Scope nat_scope.
 
 (* The compressed document (sampled suffix array + sampled inverse suffix array + wavelet-tree
    psi) answers every query as a plain scan of the original text, for every text, alphabet,
-   record division and needle. *)
-Theorem C19_compressed_document_answers_as_scan : forall text rb,
+   record division and needle.  _partial: modulo (a) SA-IS, (b) the Huffman book / list-interface
+   wavelet trees, (c) the byte layer and (d) the list-held sparse vectors, as listed in the header. *)
+Theorem C19_compressed_document_answers_as_scan_partial : forall text rb,
   check_record_boundaries text rb = true ->
   exists d, construct_compressed text rb = Ok d /\ answers_as_scan text rb d.
 Proof. exact compressed_doc_correct. Qed.
 
 (* The same for the PsiDocument over the reference (uncompressed) suffix array, inverse suffix
    array and psi: backward search itself is right. *)
-Theorem C19_reference_psi_document_answers_as_scan : forall text rb,
+Theorem C19_reference_psi_document_answers_as_scan_partial : forall text rb,
   check_record_boundaries text rb = true ->
   exists d, construct_reference_psi_doc text rb = Ok d /\ answers_as_scan text rb d.
 Proof. exact reference_psi_doc_correct. Qed.
 
 (* ... and over the reference suffix arrays with the wavelet-tree psi. *)
-Theorem C19_wavelet_psi_document_answers_as_scan : forall text rb,
+Theorem C19_wavelet_psi_document_answers_as_scan_partial : forall text rb,
   check_record_boundaries text rb = true ->
   exists d, construct_wavelet_doc text rb = Ok d /\ answers_as_scan text rb d.
 Proof. exact wavelet_doc_correct. Qed.
@@ -109,6 +133,11 @@ Theorem C19_prefix_wavelet_tree_answers_as_the_symbol_list :
     (forall q, In q text -> forall k, pt_select_q enc t q k = wt_select_q text q k).
 Proof. exact prefix_wt_correct. Qed.
 
+(* The hypothesis `cf s <> []` is essential (construct_recursive refuses an empty code word) and is
+   NOT established for the Huffman book here: for a one-symbol row (an all-equal text) the book has
+   one symbol and no theorem says its code word is non-empty; that case is covered by the
+   `wt|huff` correspondence cases (single-symbol strings) only.  For the fixed-width encoder the
+   width is at least 1 and C19_fixed_width_wavelet_tree closes the chain. *)
 Theorem C19_prefix_wavelet_tree_constructs_for_prefix_free_codes :
   forall enc dec cf text, (forall s, In s text -> enc s = Some (cf s) /\ dec (cf s) = Some s) ->
   forall fuel, (forall s, In s text -> cf s <> []) ->
@@ -199,6 +228,12 @@ Theorem C19_sparse_from_indices_is_the_bit_list : forall branch len idx b,
   exists v, sv_from_indices branch len idx = Some v /\ sparse_answers v b.
 Proof. exact sparse_from_indices_answers. Qed.
 
+(* from_indices refuses whatever the specification refuses (branch outside [4, 256), indices not
+   strictly increasing, an index at or beyond len): with the theorem above, the two accept alike *)
+Theorem C19_sparse_from_indices_refuses_alike : forall branch len idx,
+  from_indices branch len idx = None -> sv_from_indices branch len idx = None.
+Proof. exact sparse_refuses_alike. Qed.
+
 (* ... and BitVector::construct(bits) (the indices of the set bits, branch 16), for EVERY bit list *)
 Theorem C19_sparse_construct_is_the_bit_list : forall b,
   exists v, sv_construct b = Some v /\ sparse_answers v b.
@@ -287,7 +322,7 @@ Example banana_compressed :
     doc_search d [65; 78]%N = Ok [1; 3] /\ doc_count d [78; 65]%N = Ok 2 /\
     doc_lookup d 4 = Ok 1 /\ doc_retrieve d 1 = Ok [65; 78; 65]%N /\ doc_search d [67]%N = Ok [].
 Proof.
-  destruct (C19_compressed_document_answers_as_scan banana [0; 3] banana_valid) as (d & C & A).
+  destruct (C19_compressed_document_answers_as_scan_partial banana [0; 3] banana_valid) as (d & C & A).
   exists d. split; [exact C|]. destruct A as (_ & _ & S & Cn & L & R & _).
   rewrite (S [65; 78]%N), (Cn [78; 65]%N), (L 4 ltac:(cbn; auto with arith)), (R 1 ltac:(cbn; auto)), (S [67]%N).
   repeat split; reflexivity.
